@@ -51,6 +51,8 @@ struct CtlState {
     release: Vec<u64>,   // threads allowed to proceed
     hold_enabled: bool,
     ndone: usize,
+    /// threads that are to die (panic) when they leave the hold point they are at
+    crash: Vec<u64>,
 }
 struct Ctl {
     m: Mutex<CtlState>,
@@ -95,6 +97,17 @@ impl Ctl {
         }
         s.release.retain(|x| *x != tid);
         s.held.retain(|x| *x != tid);
+        if s.crash.contains(&tid) {
+            s.crash.retain(|x| *x != tid);
+            s.events.push(json!({"ev": "crashed", "t": tid}));
+            self.cv.notify_all();
+            drop(s);
+            if force {
+                set_sched(0, false);
+            }
+            // unwinds through the library code that holds the endpoint lock
+            panic!("scripted death of the caller inside its transaction");
+        }
         drop(s);
         if force && kind == "sent" {
             set_sched(0, true);
@@ -431,6 +444,23 @@ pub fn run(cases: &[Value], trace: &mut Trace, _seed: u64) {
                 let t = cmd[1].as_u64().unwrap();
                 if c == "start" {
                     start(t, &mut handles, 1);
+                } else if c == "crash" {
+                    // thread t (stopped at a hold point) dies there
+                    let t0 = Instant::now();
+                    loop {
+                        let mut s = ctl.m.lock().unwrap();
+                        if s.held.contains(&t) {
+                            s.crash.push(t);
+                            s.release.push(t);
+                            ctl.cv.notify_all();
+                            break;
+                        }
+                        drop(s);
+                        if t0.elapsed() > Duration::from_millis(200) {
+                            break;
+                        }
+                        std::thread::sleep(Duration::from_micros(100));
+                    }
                 } else {
                     // release whoever is held (the mutex decides who got the lock, not the schedule)
                     let t0 = Instant::now();
